@@ -6,7 +6,9 @@ import ast
 
 from .. import AnalysisError, flow
 from ..srcmodel import walk_local, norm, dotted, guards, enclosing_stmt, facts_at
-from . import common
+from . import common, forward
+
+from .c15 import _globals_inventory
 
 META = {
     'explanation': (
@@ -19,7 +21,7 @@ META = {
         "an attribute that is committed back must not also seed the value "
         "that is committed (append-only feedback). Not decided: arbitrary "
         "operation sequences as such."),
-    'families': ['COMMIT', 'FRESH', 'TBL'],
+    'families': ['GLOBALS', 'COMMIT', 'FRESH', 'TBL', 'FORWARD', 'DEADPARAM', 'SIB-DEFAULTS'],
 }
 
 MUT = ('append', 'extend', 'insert', 'pop', 'remove', 'clear', 'sort', 'reverse', 'update',
@@ -92,6 +94,8 @@ def check(ctx):
     ctx.attempt(_parsers_readonly)
     ctx.attempt(_commit_assigns)
     ctx.attempt(_fresh)
+    ctx.attempt(_globals_inventory)
+    ctx.attempt(forward.check_all, module_suffixes=('plssdesc.plssdesc', 'tract.tract', 'tract.tract_parse'))
 
 
 def _parsers_readonly(ctx):
@@ -172,30 +176,10 @@ def _commit_assigns(ctx):
                           for c in ast.walk(blk)), 'TBL',
                   f"{spec}: the commit block replaces, never extends",
                   detail_bad="results are appended to the previous ones on commit", key=f"TBL|{spec}|noextend")
-    # FRESH: nothing handed to the parser derives from an attribute that a
-    # committed parse overwrites (the parse would feed on its own output)
-    for spec, pcls, mod in (('PLSSDesc.parse', 'PLSSParser', 'plss_parse'), ('Tract.parse', 'TractParser', 'tract_parse')):
-        fi = ctx.repo.func(spec)
-        blk = [n for n in fi.node.body if isinstance(n, ast.If) and norm(n.test) == 'commit'][0]
-        committed = set(ctx.fold.get_attr(mod, pcls, 'UNPACKABLES'))
-        for n in ast.walk(blk):
-            if isinstance(n, ast.Attribute) and isinstance(n.ctx, ast.Store) and norm(n.value) == 'self':
-                committed.add(n.attr)
-        calls = [c for c in walk_local(fi.node) if isinstance(c, ast.Call) and dotted(c.func) == pcls]
-        for c in calls:
-            for k in c.keywords:
-                if k.arg is None or (k.arg == 'parent' and norm(k.value) == 'self'):
-                    continue
-                prov = flow.provenance(fi.node, k.value)
-                fed = sorted(a for a in flow.prov_attrs(prov) if a.startswith('self.') and a[5:] in committed)
-                ctx.check(not fed, 'FRESH', f"{spec}: parser input {k.arg} is independent of committed results",
-                          f"{k.arg}={norm(k.value)}",
-                          f"{k.arg}={norm(k.value)} derives from {fed}, which a committed parse overwrites: "
-                          f"a re-parse starts from the previous parse's output",
-                          key=f"FRESH|{spec}|{k.arg}", where=common.loc(fi, c))
+    fresh_inputs(ctx)
     fi = ctx.repo.func('PLSSDesc.parse')
-    blk = [n for n in fi.node.body if isinstance(n, ast.If) and norm(n.test) == 'commit'][0]
-    t = [norm(s) for s in blk.body]
+    blks = [n for n in fi.node.body if isinstance(n, ast.If) and norm(n.test) == 'commit']
+    t = [norm(s) for s in blks[0].body] if blks else []
     for a in ('w_flags', 'e_flags', 'w_flag_lines', 'e_flag_lines'):
         ctx.shape(f"self.{a} = []" in t, 'TBL', f"PLSSDesc.parse wipes {a} on commit")
     # UNPACKABLES name real parser attributes
@@ -218,6 +202,32 @@ def _commit_assigns(ctx):
     for a, v in (('tracts', 'TractList()'), ('w_flags', '[]'), ('e_flags', '[]'),
                  ('w_flag_lines', '[]'), ('e_flag_lines', '[]'), ('tract_components', '[]')):
         ctx.shape(f"self.{a} = {v}" in t, 'FRESH', f"PLSSParser starts with an empty {a}")
+
+
+def fresh_inputs(ctx, specs=(('PLSSDesc.parse', 'PLSSParser', 'plss_parse'), ('Tract.parse', 'TractParser', 'tract_parse'))):
+    """FRESH: nothing handed to the parser derives from an attribute that a
+    committed parse overwrites (the parse would feed on its own output)."""
+    for spec, pcls, mod in specs:
+        fi = ctx.repo.func(spec)
+        committed = set(ctx.fold.get_attr(mod, pcls, 'UNPACKABLES'))
+        for n in walk_local(fi.node):
+            if isinstance(n, ast.Attribute) and isinstance(n.ctx, ast.Store) and norm(n.value) == 'self' \
+                    and ('commit', True) in [(t, pol) for _e, t, pol in facts_at(n)]:
+                committed.add(n.attr)
+        calls = [c for c in walk_local(fi.node) if isinstance(c, ast.Call) and dotted(c.func) == pcls]
+        if not calls:
+            ctx.undecided('FRESH', f"{spec}: parser inputs", f"no {pcls}(...) call found")
+        for c in calls:
+            for k in c.keywords:
+                if k.arg is None or (k.arg == 'parent' and norm(k.value) == 'self'):
+                    continue
+                prov = flow.provenance(fi.node, k.value)
+                fed = sorted(a for a in flow.prov_attrs(prov) if a.startswith('self.') and a[5:] in committed)
+                ctx.check(not fed, 'FRESH', f"{spec}: parser input {k.arg} is independent of committed results",
+                          f"{k.arg}={norm(k.value)}",
+                          f"{k.arg}={norm(k.value)} derives from {fed}, which a committed parse overwrites: "
+                          f"a re-parse starts from the previous parse's output",
+                          key=f"FRESH|{spec}|{k.arg}", where=common.loc(fi, c))
 
 
 def _fresh(ctx):
